@@ -275,6 +275,29 @@ fn ill_typed_stmt(d: &mut Dec, p: &GProg) -> (&'static str, String) {
         ("vec-push-type", "let ill: Vec[int32] = vec_new(); let _ = vec_push(ill, \"s\");"),
         ("mixed-int-widths", "let _ = 1i8 + 1i16;"),
     ];
+    // a field of a two-parameter generic struct read at swapped / repeated type arguments inside a generic
+    // function and returned at the type the field has NOT there (a whole function, appended to the program)
+    let swaps: Vec<(String, String, u32)> = p
+        .adts
+        .iter()
+        .filter_map(|a| match &a.kind {
+            AdtKind::Struct(fs) if a.tparams == 2 => fs.iter().find_map(|(n, t)| match t {
+                Ty::Param(k) => Some((a.name.clone(), n.clone(), *k)),
+                _ => None,
+            }),
+            _ => None,
+        })
+        .collect();
+    if !swaps.is_empty() && d.chance(14) {
+        let (sname, fname, k) = swaps[d.below(swaps.len())].clone();
+        // at S[U, T] a field declared with the struct's first parameter has type U, one declared with the second has type T
+        let wrong = if k == 0 { "T" } else { "U" };
+        return match d.below(3) {
+            0 => ("generic-field-swap", format!("TOPLEVEL:fn ill_swap[T, U](p: {sname}[U, T]) -> {wrong} {{\n    p.{fname}\n}}\n")),
+            1 => ("generic-field-swap-let", format!("TOPLEVEL:fn ill_swap[T, U](p: {sname}[U, T], q: {wrong}) -> {wrong} {{\n    let w: {wrong} = p.{fname};\n    w\n}}\n")),
+            _ => ("generic-field-swap-nested", format!("TOPLEVEL:fn ill_swap[T, U](p: {sname}[{sname}[T, U], T]) -> {} {{\n    p.{fname}\n}}\n", if k == 0 { "T" } else { "U" })),
+        };
+    }
     if !p.adts.is_empty() && d.chance(12) {
         // a nominal type applied to the wrong number of type arguments in a local annotation
         let a = &p.adts[d.below(p.adts.len())];
@@ -416,6 +439,9 @@ fn ill_typed_stmt(d: &mut Dec, p: &GProg) -> (&'static str, String) {
 /// one ill-typed statement injected at a random position of a random block; returns the text
 pub fn inject_ill_typed(mut p: GProg, md: &mut Dec) -> String {
     let (_kind, stmt) = ill_typed_stmt(md, &p);
+    if let Some(item) = stmt.strip_prefix("TOPLEVEL:") {
+        return format!("{}\n{}", render(&p), item);
+    }
     let nblocks = count_blocks(&p).max(1);
     let k = md.below(nblocks);
     let pos = md.below(8);
@@ -679,6 +705,11 @@ impl Check for C03 {
             let nblocks = count_blocks(&p).max(1);
             let k = md.below(nblocks);
             let pos = md.below(8);
+            if let Some(item) = stmt.strip_prefix("TOPLEVEL:") {
+                let text = format!("{}\n{}", render(&p), item);
+                return Case::new(json!({"text": text, "illtyped": kind, "injected": item, "depth": 2,
+                    "labels": p.labels.iter().cloned().collect::<Vec<_>>()}));
+            }
             // (a block the traversal cannot reach would leave the program unchanged: such a case is not judged)
             let site = insert_into_block(&mut p, k, pos, &stmt).or_else(|| insert_into_block(&mut p, 0, pos, &stmt));
             let depth = site.unwrap_or(0);
